@@ -348,7 +348,8 @@ nni_url_parse_inline_inner(nng_url *url, const char *raw)
 	}
 
 	for (int i = 0; nni_schemes[i] != NULL; i++) {
-		if (strncmp(s, nni_schemes[i], len) == 0) {
+		if ((strlen(nni_schemes[i]) == len) &&
+		    (strncmp(s, nni_schemes[i], len) == 0)) {
 			url->u_scheme = nni_schemes[i];
 			break;
 		}
